@@ -42,6 +42,10 @@ impl Drop for Y { fn drop(&mut self) { log(Ev::Drop(self.0)); } }
 #[derive(Resource)]
 pub struct TickProbe;
 
+/// Clones of auto-despawn signals owned by an entity (dropped with it).
+#[derive(Component, Default)]
+pub struct Holder(pub Vec<AutoDespawnSignal>);
+
 struct Canary(u8);
 impl Drop for Canary { fn drop(&mut self) { log(Ev::Canary(self.0)); } }
 
@@ -892,6 +896,14 @@ pub fn exec_wop(world: &mut World, op: &WOp, u: u32)
         {
             let popped = world.resource_mut::<H>().sigs[*k as usize].pop();
             drop(popped);
+        }
+        WOp::SigMoveInto(k, s) =>
+        {
+            let e = slot(world, *s);
+            if world.get_entity(e).is_err() { return; }
+            let Some(sig) = world.resource_mut::<H>().sigs[*k as usize].pop() else { return };
+            let mut em = world.entity_mut(e);
+            if let Some(mut h) = em.get_mut::<Holder>() { h.0.push(sig); } else { em.insert(Holder(vec![sig])); }
         }
         WOp::TakeStorage(i) =>
         {
